@@ -69,7 +69,7 @@ func (r Float64) MAX(a, b Float64) Scalar {
 }
 /* -------------------------------------------------------------------------- */
 func (c Float64) ABS(a Float64) Scalar {
-  if c.Sign() == -1 {
+  if a.Sign() == -1 {
     c.NEG(a)
   } else {
     c.SET(a)
